@@ -106,7 +106,12 @@ let explore p n (starts : (config * string list) list) (sobs : string) : config 
   List.iter (fun (c, rem) -> go c rem) starts;
   !out
 
-let is_slow s = match String.split_on_char ':' s with _ :: _ :: _ :: "slow" :: _ -> true | _ -> false
+let has_sub s sub =
+  let n = String.length s and m = String.length sub in
+  let rec go i = i + m <= n && (String.sub s i m = sub || go (i + 1)) in go 0
+let flags s = match String.split_on_char ':' s with _ :: _ :: _ :: f :: _ -> f | _ -> ""
+let is_slow s = has_sub (flags s) "slow"
+let is_psend s = has_sub (flags s) "send"
 
 let parse_spec s =
   match String.split_on_char ':' s with
@@ -153,9 +158,11 @@ let run_case line =
     let n = int_of_string ns in
     let specs = Array.of_list (List.map parse_spec (take n rest)) in
     (* a call is observed coarsely (ok / err) when the direct call at the root of its pipeline was made with Send *)
-    let rec root_send i = match fst specs.(i) with
-      | Direct -> let s = List.nth rest i in String.length s > 0 && s.[0] = 's'
-      | Pipe on -> let o = n2i on in if o < i then root_send o else false in
+    let rec root_send i =
+      let sp = List.nth rest i in
+      match fst specs.(i) with
+      | Direct -> String.length sp > 0 && sp.[0] = 's'
+      | Pipe on -> is_psend sp || (let o = n2i on in if o < i then root_send o else false) in
     send_mode := Array.init n root_send;
     let rec drop k l = if k <= 0 then l else match l with [] -> [] | _ :: r -> drop (k - 1) r in
     let items = match drop n rest with "|" :: r -> r | _ -> failwith "sep" in
